@@ -67,6 +67,7 @@ NAME_POOL = ["v1.0", "release-2", "ü", "日本語", "tag with space", "a..b", "
 REVID_POOL = [b"rev-1", b"rev-2", b"joe@example.com-20240101120000-abcdef0123456789", "rüv".encode(), b"", b"null:",
               b"x" * 40, b"\xff\x00\xfe", b"1:a", b"e", b"de", b"rev-1 "]
 GIT_SYMS = [b"GITREV0", b"GITREV1", b"GITREV2", b"GITREV3"]
+GHOSTS = [b"ghost-rev-1", b"not-in-the-git-repo"]
 _stats = {"git_names_drawn": 0, "git_names_rejected": 0}
 _state = {}
 
@@ -150,10 +151,30 @@ def _transfer_case(rng, kind):
     src = _rand_dict(rng, 5, shared, revids, git)
     dst = _rand_dict(rng, 5, shared, revids, git)
     master = _rand_dict(rng, 5, shared, revids, git) if d_store == "bound" else None
-    names = sorted({k for k, _ in src} | {k for k, _ in dst})
+    overwrite = rng.random() < 0.5
+    sel = None
+    if d_store == "git" and s_store != "git" and rng.random() < 0.3:
+        # class "revision absent from the git repository" (known finding C24-git-ghost-tag-reported-not-stored):
+        # some source tags, preferably ones the destination also has, point to ghosts; mostly with overwrite
+        dnames = [k for k, _ in dst]
+        for kv in src:
+            if rng.random() < 0.5:
+                kv[1] = rng.choice(GHOSTS)
+        for n in rng.sample(dnames, min(len(dnames), rng.randint(1, 2))):
+            src = [kv for kv in src if kv[0] != n] + [[n, rng.choice(GHOSTS)]]
+        overwrite = rng.random() < 0.8
+    elif d_store == "bound" and rng.random() < 0.35:
+        # class "child already holds every source tag identically, the master does not" (e.g. after a
+        # merge_to(child, ignore_master=True), or a master changed independently)
+        have = {k for k, _ in src}
+        dst = [list(kv) for kv in src] + [kv for kv in dst if kv[0] not in have]
+        rng.shuffle(dst)
+    else:
+        names = sorted({k for k, _ in src} | {k for k, _ in dst})
+        sel = _rand_sel(rng, names)
     return {"fn": "transfer", "kind": kind, "src": src, "dst": dst, "master": master,
-            "ignore_master": d_store == "bound" and rng.random() < 0.3,
-            "overwrite": rng.random() < 0.5, "sel": _rand_sel(rng, names)}
+            "ignore_master": d_store == "bound" and rng.random() < (0.1 if sel is None else 0.3),
+            "overwrite": overwrite, "sel": sel}
 
 
 def _exhaustive_reconcile(names, vals):
@@ -184,6 +205,15 @@ def corpus():
         {"fn": "deser", "data": b"i5e"},
         {"fn": "store", "d": [["日本語", "rüv".encode()], ["", b""], ["1:a", b"\xff\x00"]]},
     ]
+    # bound destination whose child is already up to date while the master is not: the master must still be reconciled
+    for kind in ("native-bound", "git-bound", "mem-bound"):
+        rv = GIT_SYMS if kind.startswith("git") else [b"rev-1", b"rev-2", b"rev-3"]
+        out.append({"fn": "transfer", "kind": kind, "src": [["v1", rv[0]], ["v2", rv[1]]],
+                    "dst": [["v2", rv[1]], ["v1", rv[0]]], "master": [["v2", rv[2]]],
+                    "ignore_master": False, "overwrite": False, "sel": None})
+        out.append({"fn": "transfer", "kind": kind, "src": [["v1", rv[0]], ["v2", rv[1]]],
+                    "dst": [["v2", rv[1]], ["v1", rv[0]]], "master": [["v2", rv[2]]],
+                    "ignore_master": False, "overwrite": True, "sel": None})
     known = {e["id"] for e in load_known_findings(PROP)}
     # regression witness of the repaired finding C24-memorytags-merge-ignores-master (commit b75814f): must PASS
     out.append({"fn": "transfer", "kind": "mem-bound", "src": [["v1", b"rev-1"]], "dst": [], "master": [],
@@ -191,6 +221,13 @@ def corpus():
     if "C24-git-ghost-tag-reported-not-stored" in known:
         out.append({"fn": "transfer", "kind": "native-git", "src": [["ghost", b"not-in-the-git-repo"]], "dst": [],
                     "master": None, "ignore_master": False, "overwrite": False, "sel": None})
+        # same class, the ghost overwrites / conflicts with a tag the git destination already has: the old tag must survive
+        for kind in ("native-git", "mem-git"):
+            for ov in (True, False):
+                out.append({"fn": "transfer", "kind": kind,
+                            "src": [["v1", b"not-in-the-git-repo"], ["v2", GIT_SYMS[1]], ["new", b"ghost-rev-1"]],
+                            "dst": [["v1", GIT_SYMS[0]], ["v2", GIT_SYMS[2]], ["keep", GIT_SYMS[3]]],
+                            "master": None, "ignore_master": False, "overwrite": ov, "sel": None})
     return out
 
 
@@ -487,8 +524,21 @@ def finding_matches(fid, inp, obs, why):
     if inp.get("fn") != "transfer":
         return False
     if fid == "C24-git-ghost-tag-reported-not-stored":
-        return (KINDS[inp["kind"]][1] == "git" and KINDS[inp["kind"]][0] != "git"
-                and any(v not in GIT_SYMS for _k, v in inp["src"]))
+        # exactly the known behaviour and nothing more: non-git source -> git destination, some merged tag points to a
+        # revision that is not a commit of the repository; such a tag is reported but not stored, the name keeps its old
+        # destination value (if any); every other name, the updates and the conflicts are as the rules demand
+        if not (KINDS[inp["kind"]][1] == "git" and KINDS[inp["kind"]][0] != "git") or isinstance(obs, Err):
+            return False
+        src, dst = dict(map(tuple, inp["src"])), dict(map(tuple, inp["dst"]))
+        eres, eupd, econf = _expected(src, dst, inp["overwrite"], inp["sel"])
+        ghosts = {n for n, v in eres.items() if v not in GIT_SYMS}
+        if not ghosts:
+            return False
+        known_after = {n: v for n, v in eres.items() if n not in ghosts}
+        known_after.update({n: dst[n] for n in ghosts if n in dst})
+        after, _m, updates, conflicts = obs
+        return (after == known_after and updates == eupd
+                and {(n.decode("utf-8"), a, b) for n, a, b in conflicts} == econf)
     return False
 
 
